@@ -104,7 +104,7 @@ class C08(PropBase):
             "every NL transition latitude +-1e-6..3e-2 deg, even/odd latitude-zone edges, equator, +-86.9/86.9999, antimeridian, Greenwich, "
             "longitude-zone edges, uniform; both hemispheres; either parity first; displacement 0-3 km between frames; delays 0, 2, 9.5, "
             "9.9, 10.1, 10.5, 3600 s; identification / velocity / DF4 / DF11 / DF20 frames and surface frames (TC 5-8) and frames with a CPR field of exactly 0 (same or other parity) interleaved; -U on/off; "
-            "observers None and six 'lat,lon' strings with blanks. After every frame the row is compared with a reference that knows "
+            "observers None and six 'lat,lon' strings with blanks; pairs with identical raw CPR fields sent back to back by two aircraft as surface/airborne, airborne/surface/airborne and airborne/airborne. After every frame the row is compared with a reference that knows "
             "only the true positions, receive times and the rule of the property (encoded-zone equality computed exactly): shown position "
             "within 20 m of the newer frame's true position, in range, distance = haversine(R=6371) of the shown position, or exactly as "
             "before; and with the Lean model line (1e-9 deg). Non-trivial = a history with at least one committed decode and one "
@@ -235,6 +235,55 @@ class C08(PropBase):
                         rep.nontriv((zone, steps[0][5], why))
             rep.sample({"batch": c, "observer": obs, "ops_head": ops[:14]})
             c += batch
+        self.twins(rep, run, rng, tier, driver_ok)
+
+    def twins(self, rep, run, rng, tier, driver_ok):
+        """the same raw CPR fields in two different roles, back to back: a surface pair (TC 5-8) of one aircraft and then an
+        airborne pair (TC 9-18) of another with identical 17-bit fields and the same parity order (and the other way round,
+        and the same airborne pair for two aircraft).  The decode of a pair must depend on nothing but that pair and its
+        kind: whatever was decoded just before - by any aircraft - must not leak into it."""
+        n = 40 if tier == "quick" else 1500
+        ops = ["reset", gen.cfg_op(delete_after=100000)]
+        plan = []
+        for c in range(n):
+            lat = strat_lat(rng, 4 + c % 4); lon = strat_lon(rng, 24 + c, lat)
+            first = rng.randrange(2)
+            f0 = F.cpr_encode(lat, lon, first); f1 = F.cpr_encode(lat, lon, 1 - first)
+            if 0 in f0 or 0 in f1 or F.nl(encoded_rlat(lat, 0)) != F.nl(encoded_rlat(lat, 1)):
+                continue
+            a, b = 0x480000 + 2 * c, 0x480001 + 2 * c
+            def air(addr, odd, fl):
+                return F.df17(5, addr, F.me_airpos(rng.randrange(9, 19), 0, 0, F.ac12_q1(rng.randrange(40, 1800)), 0, odd, fl[0], fl[1]))
+            def surf(addr, odd, fl):
+                return F.df17(5, addr, F.me_surface(rng.randrange(5, 9), rng.randrange(128), 1, rng.randrange(128), 0, odd, fl[0], fl[1]))
+            order = c % 3
+            if order == 0:
+                lines = [surf(a, first, f0), surf(a, 1 - first, f1), air(b, first, f0), air(b, 1 - first, f1)]
+            elif order == 1:
+                lines = [air(a, first, f0), air(a, 1 - first, f1), surf(b, first, f0), surf(b, 1 - first, f1), air(a, first, f0), air(a, 1 - first, f1)]
+            else:
+                lines = [air(a, first, f0), air(a, 1 - first, f1), air(b, first, f0), air(b, 1 - first, f1)]
+            ops += [gen.cfg_op(use_update=bool(c % 2)), f"case tw{c}"] + gen.seg(lines) + ["dump"]
+            plan.append((c, [[b], [a], [a, b]][order], float(lat), float(lon), lines))
+        impl, _, model = run.execute(ops, model=driver_ok)
+        rep.traces += 1
+        self.corr(rep, impl, model, {"scenario": "raw-field twins"}, None)
+        ci = core.split_cases(impl)
+        for (c, addrs, la, lo, lines) in plan:
+            rows = gen.parse_dump(ci.get(f"tw{c}", []))
+            for ad in addrs:
+                rep.evaluations += 1
+                r = rows.get(ad)
+                if r is None:
+                    continue
+                slat, slon = float(r["lat"]), float(r["lon"])
+                d = F.haversine_km(slat, slon, la, lo)
+                if d > 0.020:
+                    self.fail(rep, f"valid airborne pair of {ad:06X} sent right after another pair with the same raw CPR fields: shown ({slat}, {slon}) is "
+                                   f"{d * 1000:.0f} m from the encoded position ({la}, {lo})",
+                              {"ops": ["reset", gen.cfg_op(delete_after=100000, use_update=bool(c % 2))] + gen.seg(lines) + ["dump"], "case": f"tw{c}"})
+                    return
+            rep.count("raw-field twin scenarios")
 
     def case_ops(self, ops, cc):
         """the ops of one aircraft's history (plus the configuration lines before it)"""
